@@ -476,6 +476,46 @@ pub fn instr(ctx: &mut Ctx) {
             }
         }
     }
+    // weight ladder: every weight of the boundary alphabet (infinities, NaN, subnormals, -0.0, MAX, near-equal pairs)
+    // given to a NEW edge and to an existing one, read back, snapshotted and diffed
+    {
+        let ws = crate::alpha::floats_boundary(false);
+        for w1 in &ws {
+            for w2 in [*w1, 0.5, f32::INFINITY, 1e-40] {
+                let mut m = M::default();
+                let mut g = G::default();
+                g.nodes.insert(1, 0);
+                g.nodes.insert(2, 1);
+                m.graphs = vec![g];
+                let script: Vec<(&str, Vec<i32>, Vec<f32>)> = vec![
+                    ("GRAPH.EDGE*ADD", vec![2, 1], vec![*w1]),
+                    ("GRAPH.EDGE*GETWEIGHT", vec![2, 1], vec![]),
+                    ("GRAPH.DUP", vec![], vec![]),
+                    ("GRAPH.EDGE*SETWEIGHT", vec![2, 1], vec![w2]),
+                    ("GRAPH.EDGE*GETWEIGHT", vec![2, 1], vec![]),
+                    ("GRAPH.EDGE*HISTORY", vec![1, 2, 1], vec![]),
+                    ("GRAPH.PRINT*DIFF", vec![], vec![]),
+                ];
+                for (name, ints, floats) in script {
+                    let (id, rec) = ctx.take_exec();
+                    ctx.transitions += 1;
+                    let mut m0 = m.clone();
+                    m0.i = ints.clone();
+                    m0.f = floats.clone();
+                    m0.n.clear();
+                    refmodel::set_next_node_id(3);
+                    let out = step_once(&mut real, &with_instr(&m0, name));
+                    refmodel::set_next_node_id(refmodel::NEXT_NODE_ID);
+                    let v = refmodel::judge(name, &m0, &out);
+                    ctx.record_if(rec, id, &format!("w|{}|{}", name, out.key()), v, || format!("weight ladder: {} with weights {} then {}", name, w1, w2));
+                    match out {
+                        Outcome::Ok(g) => m = g,
+                        Outcome::Panic(_) => break,
+                    }
+                }
+            }
+        }
+    }
     // the straight history of 101 GRAPH.DUPs on a capacity-100 graph stack
     {
         let mut m = M::default();
